@@ -1,6 +1,7 @@
 package lib
 
 import (
+	"bytes"
 	"encoding/json"
 	"flag"
 	"fmt"
@@ -117,9 +118,10 @@ func (r *Result) Write(c *Config) {
 }
 
 // CasesFile accumulates a Coq file of the shape
-//   From PcoreV Require Import <imports>.
-//   Definition cases : list <typ> := [ ... ].
-//   Definition M_<obl> := Eval vm_compute in <obl expression over cases>. Print M_<obl>.
+//
+//	From PcoreV Require Import <imports>.
+//	Definition cases : list <typ> := [ ... ].
+//	Definition M_<obl> := Eval vm_compute in <obl expression over cases>. Print M_<obl>.
 type CasesFile struct {
 	Imports []string
 	Typ     string
@@ -171,8 +173,11 @@ func ReplayInputs(path string) []interface{} {
 	if err != nil {
 		panic(err)
 	}
+	// numbers are kept as written (json.Number): an int64 bound such as 9223372036854775807 does not survive float64
+	d := json.NewDecoder(bytes.NewReader(b))
+	d.UseNumber()
 	var body map[string]interface{}
-	if err := json.Unmarshal(b, &body); err != nil {
+	if err := d.Decode(&body); err != nil {
 		panic(err)
 	}
 	switch in := body["input"].(type) {
